@@ -243,7 +243,7 @@ class Schema:
                                      ['lt', ['call', S('offset'), wrong, other], other], ['gt', ['call', S('toDays'), wrong], lit(gen.vlong(0))], ['hasTag', wrong, lit(gen.vstr('k'))],
                                      ['eq', ['getTag', wrong, other], other], ['in', wrong, other], ['call', S('decimal'), wrong], ['call', S('ip'), lit(gen.vstr('not an ip'))],
                                      ['call', S('lessThan'), self.texpr(T('decimal'), env, 0, guarded)], ['eq', ['mkset', wrong, other], ['mkset']],
-                                     ['eq', ['mkrec', [S('a'), wrong], [S('a'), other]], ['mkrec']]])
+                                     ['eq', ['mkrec', [S('a'), wrong], [S('b'), other]], ['mkrec']]])      # (distinct keys: a repeated key cannot be written as text, and C19 parses these policies from text)
             return ['if', self.texpr(want, env, d, guarded), self.texpr(want, env, d, guarded), self.texpr(want, env, d, guarded)]
         if want[0] == 'prim':
             n = want[1]
